@@ -371,7 +371,7 @@ pub fn gen_plan(rng: &mut Rng, sh: &WorldShape, mac: QMacro, f: &Faults) -> Vec<
         };
         let w = if rng.chance(1, 3) { Some((rng.below(4) as u8, rng.next())) } else { None };
         let inner = match mac {
-            QMacro::Iter | QMacro::IterDestroy | QMacro::Find => match rng.below(8) {
+            QMacro::Iter | QMacro::IterDestroy | QMacro::IterDestroyUnit | QMacro::IterDestroyStep | QMacro::Find => match rng.below(8) {
                 0 => Inner::OtherCreate { p: rng.next() },
                 1 => Inner::OtherDestroy { n: rng.next() as u32 },
                 _ => Inner::Nothing,
